@@ -130,6 +130,13 @@ ComKept1(f, gi, go) ==
       mo == FoldSet(LAMBDA j, acc : acc + Interp1Num(f, gi, go, j) * Centre2(go, j), 0, Idx(go)) IN
   (Covers1(gi, go, { i \in Idx(gi) : f[i] # 0 }) /\ S > 0) =>
      ZAbs(mo - Den1(gi) * Mom1(f, gi)) <= Den1(gi) * S * (gi.vox + go.vox)
+\* (beyond the property: the tight bound.  Every piece of mass moves to the centre of the output voxel it falls in,
+\* so the centre of mass moves by at most half an OUTPUT voxel; for a pure shift - zoom 1 - that is half a voxel)
+ComKeptTight1(f, gi, go) ==
+  LET S == Sum1(f, gi)
+      mo == FoldSet(LAMBDA j, acc : acc + Interp1Num(f, gi, go, j) * Centre2(go, j), 0, Idx(go)) IN
+  (Covers1(gi, go, { i \in Idx(gi) : f[i] # 0 }) /\ S > 0) =>
+     ZAbs(mo - Den1(gi) * Mom1(f, gi)) <= Den1(gi) * S * go.vox
 \* "value-preserving zoom keeps uniform regions uniform": an output voxel inside a region where the input
 \* is the constant v has (after the preserve_values scaling) the value v:  num * vi = Den * v * vo
 UniformKept1(f, gi, go, a, b, v) ==
